@@ -3,6 +3,7 @@ package c11
 import (
 	"bytes"
 	"fmt"
+	"os"
 	"sort"
 	"strings"
 
@@ -77,6 +78,15 @@ type observer struct {
 	nDMAs     int
 }
 
+// debugf logs an event with the simulated time when C11_DEBUG is set.
+func (o *observer) debugf(format string, a ...any) {
+	if debugLog {
+		fmt.Fprintf(os.Stdout, "  [%.9f] %s\n", float64(o.engine.CurrentTime()), fmt.Sprintf(format, a...))
+	}
+}
+
+var debugLog = os.Getenv("C11_DEBUG") != ""
+
 func (o *observer) fail(format string, a ...any) {
 	if o.violation == "" {
 		o.violation = fmt.Sprintf(format, a...)
@@ -103,6 +113,7 @@ func (o *observer) StartTask(t tracing.Task) {
 		}
 		c.what = t.What
 		c.starts++
+		o.debugf("driver starts command %s %s", c.id, c.what)
 		if c.starts > 1 {
 			o.fail("command %s (%s) was started %d times", c.id, c.what, c.starts)
 		}
@@ -137,6 +148,7 @@ func (o *observer) AddMilestone(tracing.Milestone) {}
 
 func (o *observer) EndTask(t tracing.Task) {
 	if id, ok := strings.CutSuffix(t.ID, "_req_out"); ok {
+		o.debugf("driver takes the response of request %s", id)
 		if p := o.pieces[id]; p != nil {
 			p.cmd.finalised = append(p.cmd.finalised, "piece")
 			if o.dma && p.rsps == 0 {
@@ -154,6 +166,7 @@ func (o *observer) EndTask(t tracing.Task) {
 		return
 	}
 	c.ends++
+	o.debugf("driver completes command %s %s", c.id, c.what)
 	if c.ends > 1 {
 		o.fail("command %s (%s) completed %d times", c.id, c.what, c.ends)
 	}
@@ -195,6 +208,7 @@ func (h cpHook) Func(ctx sim.HookCtx) {
 			}
 			p.recvd++
 			p.gpu = h.gpu
+			o.debugf("%s CP received copy request 0x%x+%d of command %s", h.gpu, p.addr, p.n, p.cmd.id)
 			if p.recvd > 1 {
 				o.fail("copy request 0x%x+%d arrived %d times at %s", p.addr, p.n, p.recvd, h.gpu)
 				return
@@ -203,6 +217,7 @@ func (h cpHook) Func(ctx sim.HookCtx) {
 		case *protocol.FlushReq:
 			if f := o.flushes[m.ID]; f != nil {
 				f.recvd++
+				o.debugf("%s CP received flush of command %s", h.gpu, f.cmd.id)
 			}
 		}
 	case sim.HookPosPortMsgSend:
@@ -218,6 +233,7 @@ func (h cpHook) Func(ctx sim.HookCtx) {
 				return
 			}
 			p.rsps++
+			o.debugf("%s CP answers copy request 0x%x+%d of command %s (%d transactions)", h.gpu, p.addr, p.n, p.cmd.id, len(p.txs))
 			if p.rsps > 1 {
 				o.fail("copy request 0x%x+%d of command %s was answered %d times by %s", p.addr, p.n, p.cmd.id, p.rsps, h.gpu)
 				return
@@ -226,6 +242,7 @@ func (h cpHook) Func(ctx sim.HookCtx) {
 		case *protocol.FlushReq:
 			if f := o.flushes[m.ID]; f != nil {
 				f.rsps++
+				o.debugf("%s CP answers flush of command %s", h.gpu, f.cmd.id)
 				if f.rsps > 1 {
 					o.fail("a cache flush of command %s was answered %d times by %s", f.cmd.id, f.rsps, h.gpu)
 				}
@@ -325,8 +342,8 @@ func (h dmaHook) Func(ctx sim.HookCtx) {
 			return
 		}
 		if addr/lineSize != (addr+uint64(n)-1)/lineSize {
-			o.fail("the DMA engine of %s issued a %s of 0x%x+%d that crosses a %d-byte line", h.gpu, kind, addr, n, lineSize)
-			return
+			// not demanded by the property (the bytes decide); recorded only
+			o.labels["dma:transaction-crosses-64-byte-line"] = true
 		}
 		if write {
 			off := int(addr - owner.addr)
@@ -476,28 +493,4 @@ func shorten(l []string) []string {
 		out[i] = s
 	}
 	return out
-}
-
-// flushOutlivedCopy is the signature of finding C11-2: a copy command is stuck
-// although every one of its copy requests and cache flushes has been answered
-// and taken by the driver, and the last response the driver took was a flush.
-func (o *observer) flushOutlivedCopy() bool {
-	if !o.dma {
-		return false
-	}
-	hit := false
-	for _, c := range o.order {
-		if c.ends > 0 || c.starts == 0 {
-			continue
-		}
-		if !c.isCopy() || len(c.flushes) == 0 || len(c.pieces) == 0 {
-			return false
-		}
-		n := len(c.finalised)
-		if n != len(c.pieces)+len(c.flushes) || !strings.HasPrefix(c.finalised[n-1], "flush") {
-			return false
-		}
-		hit = true
-	}
-	return hit
 }
